@@ -206,6 +206,53 @@ def check_lookup(db, rep, tier):
     rep.floor('D.lookup', n, 1 if (bad or shape_bad) else 100)
 
 
+def check_lookup_history(db, rep):
+    """the lookup is a function of the grid in force and of x: an earlier lookup on a grid that has since been replaced (by
+    either Set_xrange overload) must not show.  Old nodes Y, prior query P in [Y2,Y3) (index 2); the new grid puts the same x
+    into its first interval."""
+    from mpmath import mpf
+    unit = db.unit('SQuIDS')
+    f = db.one('SQuIDS', 'squids::SQuIDS::Get_i', 1)
+    fvec = db.one('SQuIDS', 'squids::SQuIDS::Set_xrange', 1)
+    frng = db.one('SQuIDS', 'squids::SQuIDS::Set_xrange', 3)
+    n = 0
+    for how in ('vector overload', 'range overload'):
+        n += 1
+        site = 'Get_i/after a lookup on a grid replaced through the %s' % how
+        if how == 'vector overload':
+            classes = [['Y0'], ['Y1'], ['Y2'], ['X0'], ['P', 'Q'], ['X1'], ['Y3'], ['X2'], ['X3']]
+            w = {'Y0': mpf(1), 'Y1': mpf(2), 'Y2': mpf(3), 'X0': mpf('3.25'), 'P': mpf('3.5'), 'Q': mpf('3.5'), 'X1': mpf('3.75'), 'Y3': mpf(4), 'X2': mpf(5), 'X3': mpf(6)}
+            want = 0
+        else:
+            # new grid a + (b-a)k/3 = 3.25, 5.25, 7.25, 9.25 on the concrete instance: x = 3.5 lies in its first interval
+            classes = [['Y0'], ['Y1'], ['Y2'], ['a'], ['P', 'Q'], ['Y3'], ['b']]
+            w = {'Y0': mpf(1), 'Y1': mpf(2), 'Y2': mpf(3), 'a': mpf('3.25'), 'P': mpf('3.5'), 'Q': mpf('3.5'), 'Y3': mpf(4), 'b': mpf('9.25')}
+            want = 0
+        this, hooks, it = solver_with_grid(db, 4, classes, strict=True, witness=w)
+        xv = this.value.fields['x'].value
+        for k in range(4):
+            xv.fields['data'].value.cell(k).value = Poly.var('Y%d' % k)
+        try:
+            first = it.call(f, this, [Poly.var('P')])
+            if how == 'vector overload':
+                it.call(fvec, this, [make_vector('xs', 4, lambda k: Poly.var('X%d' % k))])
+            else:
+                hooks.assume = lambda it_, cond, node: None
+                it.call(frng, this, [Poly.var('a'), Poly.var('b'), Opaque('string', 'lin')])
+            r = it.call(f, this, [Poly.var('Q')])
+        except Thrown as t:
+            rep.fail('D.lookup.history', site, unit.loc(t.node), 'index %d' % want, 'throw: %s' % t.what, f['name'])
+            continue
+        if first != 2:
+            raise AnalysisBroken('history scenario of Get_i: the first lookup returned %r, expected 2' % (first,))
+        if r == want:
+            rep.ok('D.lookup.history')
+        else:
+            rep.fail('D.lookup.history', site, unit.loc(f), 'the bracketing index on the grid in force (%d)' % want,
+                     'returned %r: the answer of the earlier lookup on the replaced grid' % (r,), f['name'])
+    rep.floor('D.lookup.history', n, 2)
+
+
 def run(db, rep, tier):
     rep.trusted += ['clang 14 AST of /repo sources', 'sqdump extractor + abstract interpreter',
                     'exp(log(a)) = a for the positive lower end (guarded), real arithmetic for the affine forms',
@@ -214,3 +261,4 @@ def run(db, rep, tier):
     check_formulas(db, rep)
     check_vector_overload(db, rep)
     check_lookup(db, rep, tier)
+    check_lookup_history(db, rep)
